@@ -1154,6 +1154,7 @@ def FIBER(
         if (alpha == 0 and beta_2 == 0 and beta_3 == 0) or gamma == 0
         else phi_max / (gamma * np.sum(np.abs(np.atleast_2d(A)) ** 2, axis=0)).max()
     )
+    h = min(h, length)  # a weak signal allows a step longer than the fiber: one step of the whole length
 
     x_length = h
 
